@@ -8,12 +8,12 @@ package c18
 import (
 	"context"
 	"crypto"
-	"encoding/json"
-	"path/filepath"
-	"strings"
 	"crypto/rand"
+	"encoding/json"
 	"fmt"
 	"os"
+	"path/filepath"
+	"strings"
 	"testing"
 
 	pipeline "github.com/buildkite/go-pipeline"
